@@ -925,6 +925,28 @@ func goAbiTypes(fn string) ([]string, []string) {
 	return types, args
 }
 
+var (
+	reForHeader = regexp.MustCompile(`for \([^)]*\)`)
+	reStrLit    = regexp.MustCompile(`"[^"]*"`)
+	reCmpOp     = regexp.MustCompile(`<=|>=|==|!=|<|>`)
+)
+
+// cmpOpFacts: every comparison operator of the `if (...)` / `require(...)` conditions of a
+// Solidity function, in textual order (loop headers and string literals removed), as Lean
+// functions `<prefix>Op<k>`; the hand model's comparisons are these generated functions.
+func cmpOpFacts(prefix, fn string) []string {
+	body := fn[strings.Index(fn, "{"):]
+	body = reStrLit.ReplaceAllString(reForHeader.ReplaceAllString(body, ""), "")
+	lean := map[string]string{"<": "<", ">": ">", "<=": "≤", ">=": "≥", "==": "=", "!=": "≠"}
+	var out []string
+	ops := reCmpOp.FindAllString(body, -1)
+	for k, op := range ops {
+		out = append(out, fmt.Sprintf("raw def %sOp%d (a b : Nat) : Bool := decide (a %s b)", prefix, k, lean[op]))
+	}
+	out = append(out, fmt.Sprintf("nat %sOpCount %d", prefix, len(ops)))
+	return out
+}
+
 func facts() []string {
 	var out []string
 	val := stripComments(mustRead("solidity/ecdsa/contracts/EcdsaDkgValidator.sol"))
@@ -965,6 +987,10 @@ func facts() []string {
 	out = append(out, leanStrList("solValidateMembersIndices", statements(vi)))
 	out = append(out, leanStrList("solAddWallet", statements(aw)))
 	out = append(out, leanStrList("solValidatePublicKey", statements(vp)))
+
+	out = append(out, cmpOpFacts("vf", vf)...)
+	out = append(out, cmpOpFacts("vc", vc)...)
+	out = append(out, cmpOpFacts("vi", vi)...)
 
 	a := abiEncodeArgs(vs, 0)
 	out = append(out, "strlist solDkgSigArgs "+hx.JoinStrs(a), "strlist solDkgSigTypes "+hx.JoinStrs(typed(vs, a)))
